@@ -2,7 +2,7 @@
    the position handed to ctx.Warn is the Pos() of a node of the analysed file, hence (by wf, which the tie checks
    against an independent go/scanner pass) the start of a token of that file; the zero-value suggestion of newDeref
    never contains a nil node. *)
-From GC Require Import Base GoAst Model_Checkers Model_Checkers_Prefix Model_Checkers2 Proofs_Checkers Proofs_Checkers2 Proofs_Witnesses.
+From GC Require Import Base GoAst Model_Checkers Model_Checkers_Prefix Model_Checkers2 Model_Walkers Proofs_Checkers Proofs_Checkers2 Proofs_Walkers Proofs_Witnesses.
 
 Theorem C07_newDeref_pos_valid : forall f, wf f = true -> forall w, In w (warnings (run_newDeref f)) -> In (w_pos w) (token_starts f).
 Proof. exact (fun f W w H => cause_pos_valid f w W (newDeref_cause f w H)). Qed.
@@ -158,3 +158,38 @@ Print Assumptions C07_builtinShadow_pos_valid.
 Theorem C07_localDefWalker_shows_file_nodes : forall visit f w, (forall def w, In w (visit def) -> w_cause w = fst def) -> In w (warnings (run_localdef visit f)) -> In (w_cause w) (all_nodes f).
 Proof. exact (fun visit f w V H => run_localdef_cause visit f w V H). Qed.
 Print Assumptions C07_localDefWalker_shows_file_nodes.
+
+(* ---------- the astwalk walkers (Model_Walkers.v): whatever a walker shows to ANY visitor is a subsequence of the file's nodes in
+   pre-order: every shown node is a node of the file, in source order, and no occurrence is shown twice ---------- *)
+
+Theorem C07_exprWalker_subseq : forall enter skip f l, walk_expr enter skip f = R l -> subseq l (all_nodes f).
+Proof. exact (walk_expr_subseq). Qed.
+Print Assumptions C07_exprWalker_subseq.
+
+Theorem C07_bodyWalkers_subseq : forall cls enter skip f l, body_walk cls enter skip f = R l -> subseq l (all_nodes f).
+Proof. exact (body_walk_subseq). Qed.
+Print Assumptions C07_bodyWalkers_subseq.
+
+Theorem C07_funcDeclWalker_subseq : forall enter f l, walk_func_decl enter f = R l -> subseq l (all_nodes f).
+Proof. exact (walk_func_decl_subseq). Qed.
+Print Assumptions C07_funcDeclWalker_subseq.
+
+Theorem C07_typeExprWalker_subseq : forall enter skip f l, walk_type_expr enter skip f = R l -> subseq l (all_nodes f).
+Proof. exact (walk_type_expr_subseq). Qed.
+Print Assumptions C07_typeExprWalker_subseq.
+
+Theorem C07_shown_node_pos_valid : forall f l, wf f = true -> subseq l (all_nodes f) -> forall n, In n l -> In (npos n) (token_starts f).
+Proof. exact (fun f l W S n H => wf_pos_of f n W (subseq_In l (all_nodes f) n S H)). Qed.
+Print Assumptions C07_shown_node_pos_valid.
+
+Theorem C07_shown_at_most_once : forall f l, NoDup (all_nodes f) -> subseq l (all_nodes f) -> NoDup l.
+Proof. exact (fun f l N S => subseq_NoDup l (all_nodes f) S N). Qed.
+Print Assumptions C07_shown_at_most_once.
+
+Theorem C07_exprWalker_noskip_is_expr_nodes : forall f, walk_expr decl_entered (fun _ => false) f = R (expr_nodes f).
+Proof. exact (walk_expr_noskip). Qed.
+Print Assumptions C07_exprWalker_noskip_is_expr_nodes.
+
+Theorem C07_stmtWalker_noskip_is_stmt_nodes : forall f l, walk_stmt decl_entered (fun _ => false) f = R l -> l = stmt_nodes f.
+Proof. exact (walk_stmt_noskip). Qed.
+Print Assumptions C07_stmtWalker_noskip_is_stmt_nodes.
